@@ -26,6 +26,18 @@ func GenRandom(out, kind string, seed int64, n, maxCells, maxCount int) error {
 		switch kind {
 		case "shape":
 			c = randomShapeCase(rng, i, maxCells)
+			// API variants and state carried on one canvas (shape.go), on a fixed
+			// part of the cases: parallel marcher, earlier marches of the same
+			// canvas, a second attribute on the same canvas
+			if i%5 == 3 {
+				c.Par = 1
+			}
+			if i%7 == 2 {
+				c.Pre = 1 + i%2
+			}
+			if i%6 == 4 {
+				c.Decoy = 1 + (i/6)%2
+			}
 		case "prim":
 			c = randomPrimCase(rng, i, maxCount)
 		default:
@@ -43,11 +55,20 @@ func GenRandom(out, kind string, seed int64, n, maxCells, maxCount int) error {
 func (c Case) wire() map[string]any {
 	switch c.Kind {
 	case "shape":
-		return map[string]any{"kind": c.Kind, "id": c.Id, "shapes": c.Shapes, "cpu": c.Cpu, "cut": c.Cut,
-			"attr": c.Attr, "org": c.Org, "scale": c.Scale, "unit": c.Unit, "flavour": c.Flavour}
+		shapes := make([]Shape, len(c.Shapes))
+		for i, s := range c.Shapes {
+			if s.G == nil {
+				s.G = []int{}
+			}
+			shapes[i] = s
+		}
+		return map[string]any{"kind": c.Kind, "id": c.Id, "shapes": shapes, "cpu": c.Cpu, "cut": c.Cut,
+			"attr": c.Attr, "org": c.Org, "scale": c.Scale, "unit": c.Unit, "flavour": c.Flavour,
+			"par": c.Par, "pre": c.Pre, "decoy": c.Decoy}
 	case "prim":
 		return map[string]any{"kind": c.Kind, "id": c.Id, "prim": c.Prim, "rows": c.Rows, "cols": c.Cols,
-			"sides": c.Sides, "d": c.D, "uv": c.UV, "chain": c.Chain, "scale": c.Scale}
+			"sides": c.Sides, "d": c.D, "uv": c.UV, "chain": c.Chain, "scale": c.Scale,
+			"hist": c.Hist, "ord": c.Ord, "conc": c.Conc}
 	}
 	panic("no wire format for " + c.Kind)
 }
@@ -311,5 +332,8 @@ func randomPrimCase(rng *rand.Rand, id, maxCount int) Case {
 		ext = maxInt(c.D[0], (c.D[1]+1)/2)
 	}
 	c.Scale = PrimScale(ext)
+	// seeded tuples are constructed in histories of ten (history.go)
+	c.Hist = 100000 + id/10
+	c.Ord = id % 10
 	return c
 }
